@@ -17,6 +17,7 @@
 use std::fmt::{Debug, Display};
 
 use crate::dataplane_path::standard::{
+    layout::StdPathMetaLayout,
     mac::{
         ForwardingKey,
         algo::{calculate_hop_mac, mac_beta_step},
@@ -324,6 +325,12 @@ impl StandardPathView {
                     .info_field(seg_idx + 1)
                     .ok_or(AdvanceError::InfoOutOfBounds((seg_idx + 1) as u8))?;
 
+                // CurrHF is a 6 bit field: it can't be advanced beyond the last index it can
+                // hold, writing a larger value would silently wrap around.
+                if curr_hop_idx + 1 > StdPathMetaLayout::MAX_CURR_HOP_FIELD {
+                    return Err(AdvanceError::HopOutOfBounds(curr_hop_idx as u8 + 1));
+                }
+
                 // Validate the segment change if previous validation did not fail yet
                 validation_err = validation_err.or_else(|| {
                     validator
@@ -504,6 +511,12 @@ impl StandardPathView {
                 expected: seg_idx,
                 actual: curr_info_idx,
             });
+        }
+
+        // CurrHF is a 6 bit field: it can't be advanced beyond the last index it can hold,
+        // writing a larger value would silently wrap around.
+        if curr_hop_idx + 1 > StdPathMetaLayout::MAX_CURR_HOP_FIELD {
+            return Err(AdvanceError::HopOutOfBounds(curr_hop_idx as u8 + 1));
         }
 
         // Process
